@@ -266,6 +266,10 @@ MENU = [
     _m('@x', 'ATKEYWORD'), _m('@-x', 'ATKEYWORD'), _m('@media', 'MEDIA_SYM'), _m('@MEDIA', 'MEDIA_SYM'), _m('@m\\65 dia', 'MEDIA_SYM'),
     _m('@import', 'IMPORT_SYM'), _m('@page', 'PAGE_SYM'), _m('@font-face', 'FONT_FACE_SYM'), _m('@namespace', 'NAMESPACE_SYM'),
     _m('@variables', 'VARIABLES_SYM'), _m('@Import', 'IMPORT_SYM'), _m('@charset', 'ATKEYWORD'),
+    # hex escapes terminated by a line break (LF, CRLF) inside every kind of token that may hold one: what follows is on the next line
+    _m('@m\\65\ndia', 'MEDIA_SYM'), _m('@\\78\r\ny', 'ATKEYWORD'), _m('a\\62\nc', 'IDENT', 'abc'), _m('a\\62\r\nc', 'IDENT', 'abc'),
+    _m('#\\61\nb', 'HASH', '#ab'), _m('1\\70\nx', 'DIMENSION', '1px'), _m('\\61\n(', 'FUNCTION', 'a('), _m('"\\61\nb"', 'STRING', '"ab"'),
+    _m('url(\\61\nb)', 'URI', 'url(ab)'), _m('/*\n\n*/', 'COMMENT'),
     ('@charset ', [('CHARSET_SYM', '@charset ')], 'spaceafter'),
     _m('#a', 'HASH'), _m('#0', 'HASH'), _m('#-', 'HASH'), _m('#f00', 'HASH'), _m('#\\61', 'HASH', '#a', 'open'),
     _m('"a"', 'STRING'), _m("'a'", 'STRING'), _m('""', 'STRING'), _m('"\\""', 'STRING'), _m('"\\61 b"', 'STRING', '"ab"'),
